@@ -9,8 +9,8 @@ CONSTANTS
   TokOf <- Tok2
   Homes <- HomesAll2
   WaitModes = {2}
-  LockParts = {1, 2}
-  ReqStates = {"P", "A", "I", "D"}
+  LockParts = {1}
+  ReqStates = {"P", "A", "I"}
 INIT Init
 NEXT Next
 VIEW ageview
